@@ -130,7 +130,7 @@ func C13(r *drv.Run) {
 	if !quick(r) {
 		nbody, nhist = 20000, 2500
 	}
-	r.Rule = "(1) capture-free bodies B (with or, in, not in, loops, nested and recursive subroutines) in contexts prefix/suffix, inside a loop, inside an alternation: B in place == {B}=s (+0..2 calls) == set g to pattern B referenced 1..3 times, all also judged by the reference matcher; (2) a three-command source sharing one definition == concatenation of its commands compiled alone; (3) recorded sequential histories of Compile/Run calls in random order over a pool of sources and texts, checked offline against the pure-function model: each call's result digest equals the digest the same call produced alone in a fresh worker process; (4) canonical bytecode digest (loop ids normalised) unchanged by runs and equal across recompilations. Non-trivial = variant pair with >= 1 match compared / history call whose isolated result has >= 1 match; distinct by (variant source, text) and (history, call index)."
+	r.Rule = "(1) capture-free bodies B (with or, in, not in, loops, nested and recursive subroutines) in contexts prefix/suffix, inside a loop, inside an alternation: B in place == {B}=s (+0..2 calls) == set g to pattern B referenced 1..3 times, all also judged by the reference matcher; (2) a three-command source sharing one definition == concatenation of its commands compiled alone; (3) recorded sequential histories of Compile/Run calls in random order over a pool of sources (including sources whose compilation fails in the parser, the regex sub-parser, the generator and the type checker) and texts, checked offline against the pure-function model: each call's result digest equals the digest the same call produced alone in a fresh worker process; (4) canonical bytecode digest (loop ids normalised) unchanged by runs and equal across recompilations. Non-trivial = variant pair with >= 1 match compared / history call whose isolated result has >= 1 match; distinct by (variant source, text) and (history, call index)."
 	r.Assumptions = []string{
 		"bodies are capture-free, as the property says",
 		"a body that itself declares subroutines is not duplicated textually (two declarations of one name are rejected by design)",
@@ -273,6 +273,12 @@ func c13Histories(r *drv.Run, nhist int) {
 		"set g to pattern in 'a' to 'c', digit\nset h to pattern g g\nfind all h '-' g\nfind last 1 g",
 		"find skip 1 take 2 'a' maybe 'b'",
 		"find all {'(' at least 0 (s or letter) ')'} = s",
+		// compilations that FAIL must not leave anything behind either
+		"find all @/(x)(y)(z/",
+		"find all @/(a)(b)\\3/",
+		"find all 'unterminated",
+		"set p to pattern 'a' or 'b' begin return 1 end\nfind all p",
+		"find all @/(a)(b)\\2\\1/",
 	}
 	textsPool := []string{"xaxbyayb", "aabbdzaabbd", "x12 x13 x9", "ab ac", "abcb aac bcb", "hello wor1d", "abca", "a1-b c2-c", "ab a ab a a", "(a(b)) ()"}
 	srcs := make([][]byte, len(pool))
